@@ -12,3 +12,5 @@ import TjdLemmas.PCLemmas
 import TjdLemmas.RobustLemmas
 import TjdLemmas.NashLemmas
 import TjdLemmas.ImpartialLemmas
+import TjdLemmas.EquivLemmas
+import TjdLemmas.HomogLemmas
